@@ -210,6 +210,80 @@ fn check_attrs(input: &DeriveInput) -> (bool, bool, bool) {
     (is_repr_c, is_zero_copy, is_deep_copy)
 }
 
+/// Impose on the `SerType` and on the `DeserType` of a type parameter that
+/// is the type of some field the bounds that the type definition puts on the
+/// parameter itself, either inline or in the where clause: the `SerType` and
+/// `DeserType` of the derived type replace the parameter with its own
+/// `SerType` and `DeserType`, so they exist only if the bounds carry over.
+fn add_field_param_bounds(
+    generics: &syn::Generics,
+    is_field_type: &dyn Fn(&syn::Ident) -> bool,
+    where_clause_ser: &mut WhereClause,
+    where_clause_des: &mut WhereClause,
+) {
+    let mut bounded = vec![];
+    for param in &generics.params {
+        if let GenericParam::Type(t) = param {
+            if !t.bounds.is_empty() {
+                bounded.push((t.ident.clone(), t.bounds.clone()));
+            }
+        }
+    }
+    if let Some(where_clause) = &generics.where_clause {
+        for predicate in &where_clause.predicates {
+            if let WherePredicate::Type(p) = predicate {
+                if let (None, syn::Type::Path(path)) = (&p.lifetimes, &p.bounded_ty) {
+                    if let (None, Some(ident)) = (&path.qself, path.path.get_ident()) {
+                        bounded.push((ident.clone(), p.bounds.clone()));
+                    }
+                }
+            }
+        }
+    }
+
+    for (ty, bounds) in bounded {
+        // We are just interested in parameters that are types of fields.
+        if !is_field_type(&ty) {
+            continue;
+        }
+        // Add a lifetime so we express bounds on DeserType
+        let mut lifetimes = Punctuated::new();
+        lifetimes.push(GenericParam::Lifetime(LifetimeParam {
+            attrs: vec![],
+            lifetime: syn::Lifetime::new("'epserde_desertype", proc_macro2::Span::call_site()),
+            colon_token: None,
+            bounds: Punctuated::new(),
+        }));
+        // Add the type bounds to the DeserType
+        where_clause_des
+            .predicates
+            .push(WherePredicate::Type(PredicateType {
+                lifetimes: Some(BoundLifetimes {
+                    for_token: token::For::default(),
+                    lt_token: token::Lt::default(),
+                    lifetimes,
+                    gt_token: token::Gt::default(),
+                }),
+                bounded_ty: syn::parse_quote!(
+                    <#ty as epserde::deser::DeserializeInner>::DeserType<'epserde_desertype>
+                ),
+                colon_token: token::Colon::default(),
+                bounds: bounds.clone(),
+            }));
+        // Add the type bounds to the SerType
+        where_clause_ser
+            .predicates
+            .push(WherePredicate::Type(PredicateType {
+                lifetimes: None,
+                bounded_ty: syn::parse_quote!(
+                    <#ty as epserde::ser::SerializeInner>::SerType
+                ),
+                colon_token: token::Colon::default(),
+                bounds,
+            }));
+    }
+}
+
 /// Generate an ε-serde implementation for custom types.
 ///
 /// It generates implementations for the traits `CopyType`,
@@ -372,57 +446,12 @@ pub fn epserde_derive(input: TokenStream) -> TokenStream {
             // If there are bounded type parameters which are fields of the
             // struct, we need to impose the same bounds on the SerType and on
             // the DeserType.
-            derive_input.generics.params.iter().for_each(|param| {
-                if let GenericParam::Type(t) = param {
-                    let ty = &t.ident;
-
-                    // We are just interested in types with bounds that are
-                    // types of fields of the struct.
-                    //
-                    // Note that types_with_generics contains also field types
-                    // *containing* a type parameter, but that just slows down
-                    // the search.
-                    if ! t.bounds.is_empty() &&
-                        types_with_generics.iter().any(|x| *ty == x.to_token_stream().to_string()) {
-
-                        // Add a lifetime so we express bounds on DeserType
-                        let mut lifetimes = Punctuated::new();
-                        lifetimes.push(GenericParam::Lifetime(LifetimeParam {
-                            attrs: vec![],
-                            lifetime: syn::Lifetime::new("'epserde_desertype", proc_macro2::Span::call_site()),
-                            colon_token: None,
-                            bounds: Punctuated::new(),
-                        }));
-                        // Add the type bounds to the DeserType
-                        where_clause_des
-                            .predicates
-                            .push(WherePredicate::Type(PredicateType {
-                                lifetimes: Some(BoundLifetimes {
-                                    for_token: token::For::default(),
-                                    lt_token: token::Lt::default(),
-                                    lifetimes,
-                                    gt_token: token::Gt::default(),
-                                }),
-                                bounded_ty: syn::parse_quote!(
-                                    <#ty as epserde::deser::DeserializeInner>::DeserType<'epserde_desertype>
-                                ),
-                                colon_token: token::Colon::default(),
-                                bounds: t.bounds.clone(),
-                        }));
-                        // Add the type bounds to the SerType
-                        where_clause_ser
-                            .predicates
-                            .push(WherePredicate::Type(PredicateType {
-                                lifetimes: None,
-                                bounded_ty: syn::parse_quote!(
-                                    <#ty as epserde::ser::SerializeInner>::SerType
-                                ),
-                                colon_token: token::Colon::default(),
-                                bounds: t.bounds.clone(),
-                        }));
-                    }
-                }
-            });
+            add_field_param_bounds(
+                &derive_input.generics,
+                &|ty| types_with_generics.iter().any(|x| *ty == x.to_token_stream().to_string()),
+                &mut where_clause_ser,
+                &mut where_clause_des,
+            );
 
             if is_zero_copy {
                 quote! {
@@ -721,6 +750,16 @@ pub fn epserde_derive(input: TokenStream) -> TokenStream {
                     });
                 }
             }});
+
+            // If there are bounded type parameters which are fields of some
+            // variant, we need to impose the same bounds on the SerType and on
+            // the DeserType.
+            add_field_param_bounds(
+                &derive_input.generics,
+                &|ty| types_with_generics.iter().any(|x| *ty == x.to_string()),
+                &mut where_clause_ser,
+                &mut where_clause_des,
+            );
 
             // Gather deserialization types of fields,
             // which are necessary to derive the deserialization type.
